@@ -50,5 +50,18 @@ Definition check_step (st : mstate * list Z) (x : stepx) : (mstate * list Z) * n
     (st, kind_of (match m with MA a => zlist_eqb (al_e a) b | ML _ _ => true end) true)
   end.
 
-Definition check_case (c : case) : nat := scan check_step (m_init (c_kind c), []) (c_steps c) 0.
+(* Like Base.scan, but a kind-1 step (model differs, property holds) does not end the scan: the reference
+   state of the kind-2 judgement does not depend on the model, so the scan goes on looking for a property
+   violation. Result: the code of the first kind-2 step if there is one, else of the first kind-1 step, else 0.
+   (A shape mismatch right after a call must not hide that a later call loses an element.) *)
+Fixpoint scan_k2 {St X} (f : St -> X -> St * nat) (s : St) (xs : list X) (i first1 : nat) : nat :=
+  match xs with
+  | [] => first1
+  | x :: t => let '(s', k) := f s x in
+              if Nat.eqb k 0 then scan_k2 f s' t (S i) first1
+              else if Nat.eqb k 1 then scan_k2 f s' t (S i) (if Nat.eqb first1 0 then i * 4 + 1 else first1)
+              else i * 4 + k
+  end.
+
+Definition check_case (c : case) : nat := scan_k2 check_step (m_init (c_kind c), []) (c_steps c) 0 0.
 Definition mismatches (cs : list case) : list (nat * nat) := find_bad check_case cs.
